@@ -244,11 +244,12 @@ def _code_kind(code) -> int:
     return 0 if (os.path.dirname(fn) in _IGNORED_DIRS or fn in _IGNORED_DIRS) else 2
 
 
-def measure_both(text, cap=None, cap_total=None):
+def measure_both(text, cap=None, cap_total=None, per_func=None):
     """-> (outcome, steps, total).  steps as measure(); total = function
     entries (PY_START) of *all* Python code running during parse(), so that
     work done in library code on behalf of the parser (say a deep copy of a
-    sub-tree) is visible too.  Either cap ends the run with outcome 'cap'."""
+    sub-tree) is visible too.  Either cap ends the run with outcome 'cap'.
+    per_func, if a dict, receives the entries of every parser-file function."""
     import gc
 
     from pycparser.c_parser import CParser, ParseError
@@ -284,6 +285,9 @@ def measure_both(text, cap=None, cap_total=None):
                 box[1] += 1
                 if k == 1:
                     box[0] += 1
+                    if per_func is not None:
+                        nm = code.co_name
+                        per_func[nm] = per_func.get(nm, 0) + 1
                     if box[0] > lim1:
                         raise StepCap()
                 if box[1] > lim2:
@@ -400,6 +404,112 @@ def foreign_attribution(text, edges, cap=None):
     finally:
         mon.free_tool_id(tool)
     return out
+
+
+# ---------------------------------------------------------------------------
+# third counter: items moved by bulk container operations called from parser code
+# ---------------------------------------------------------------------------
+_BULK_TYPES = (dict, list, set, frozenset, tuple)
+_BULK_FUNCS = (sorted, sum, min, max, any, all)
+# bulk methods whose cost is the size of the receiver
+_BULK_SELF_METHODS = {"copy", "clear", "sort", "reverse", "index", "count", "remove", "insert",
+                      "__contains__", "__copy__"}
+_CONTAINERS = (dict, list, set, frozenset, tuple)
+
+
+def _bulk_weight(callable_, arg0, missing):
+    """Items a builtin container call moves or scans, as far as the CALL event
+    lets us see.  The event carries the callable and the first argument only,
+    and for `obj.method(x)` that first argument is `obj`: so constructors and
+    sorted/sum/min/max/any/all weigh len(argument), receiver-sized methods
+    (copy, clear, sort, reverse, index, count, remove, insert) weigh
+    len(receiver), and d.update(x) / l.extend(x) / s.union(x), whose cost is
+    len(x), cannot be weighed (x is not in the event; the copy that produced x
+    is counted where it was made).  None: not a bulk operation - the call site
+    is switched off."""
+    if callable_ in _BULK_TYPES or callable_ in _BULK_FUNCS:
+        if arg0 is missing:
+            return 0
+        return len(arg0) if isinstance(arg0, _CONTAINERS) else 0
+    name = getattr(callable_, "__name__", None)
+    if name in _BULK_SELF_METHODS:
+        if getattr(callable_, "__objclass__", None) in _CONTAINERS:  # descriptor: arg0 is the receiver
+            return len(arg0) if (arg0 is not missing and isinstance(arg0, _CONTAINERS)) else 0
+        self_ = getattr(callable_, "__self__", None)
+        if isinstance(self_, _CONTAINERS):  # bound method called through a variable
+            return len(self_)
+    return None
+
+
+def measure_bulk(text):
+    """-> (outcome, items, {calling parser function: items}).  The number of
+    container items moved or scanned by builtin bulk operations (dict(x),
+    list(x), sorted(x), d.copy(), d.clear(), l.extend(x), ...) called directly
+    from code in the three parser files - work done in C that neither call
+    counter can see.  sys.monitoring CALL events, local to the parser files'
+    code objects; a call site whose callee is not a bulk operation is switched
+    off after its first event, so this costs little more than a plain parse.
+    Deterministic."""
+    import gc
+
+    from pycparser.c_parser import CParser, ParseError
+
+    measure_both("int x;")  # warm-up, recursion limit
+    if not hasattr(sys, "monitoring"):
+        return "unsupported", 0, {}
+    mon = sys.monitoring
+    kind = _KIND
+    DISABLE = mon.DISABLE
+    MISSING = mon.MISSING
+    total = [0]
+    by = {}
+    tool = 4 if mon.get_tool(4) is None else 3
+    seen = set()
+
+    def on_start(code, offset):
+        k = kind.get(code)
+        if k is None:
+            k = kind[code] = _code_kind(code)
+        if k == 1 and code not in seen:
+            seen.add(code)
+            mon.set_local_events(tool, code, mon.events.CALL)
+        return DISABLE
+
+    def on_call(code, offset, callable_, arg0):
+        w = _bulk_weight(callable_, arg0, MISSING)
+        if w is None:
+            return DISABLE
+        if w:
+            total[0] += w
+            by[code.co_name] = by.get(code.co_name, 0) + w
+
+    parser = CParser()
+    out = "ok"
+    gc_was = gc.isenabled()
+    gc.disable()
+    mon.use_tool_id(tool, "verif-family-sweep")
+    try:
+        mon.register_callback(tool, mon.events.PY_START, on_start)
+        mon.register_callback(tool, mon.events.CALL, on_call)
+        mon.restart_events()
+        mon.set_events(tool, mon.events.PY_START)
+        try:
+            parser.parse(text)
+        except ParseError as e:
+            out = "perr:" + str(e)[:100]
+        except RecursionError:
+            out = "rec"
+        finally:
+            mon.set_events(tool, 0)
+            for code in seen:
+                mon.set_local_events(tool, code, 0)
+            mon.register_callback(tool, mon.events.PY_START, None)
+            mon.register_callback(tool, mon.events.CALL, None)
+    finally:
+        mon.free_tool_id(tool)
+        if gc_was:
+            gc.enable()
+    return out, total[0], by
 
 
 def steps(text):
@@ -536,6 +646,21 @@ REPEATABLE = {
     "decl_union": ("", lambda i: f"union U{i} {{int a; char b;}};", " ", ""),
     "decl_enum": ("", lambda i: f"enum E{i} {{A{i}, B{i} = 2}};", " ", ""),
     "decl_static_assert": ("", lambda i: '_Static_assert(1, "m");', " ", ""),
+    # every item declares a DIFFERENT file-scope name and carries braces
+    "distinct_func_def_one_line": ("", lambda i: f"int f{i}(void){{return {i};}}", "\n", "\n"),
+    "distinct_func_def_locals": ("", lambda i: f"int g{i}(int a{i}){{ int b{i} = a{i}; {{ int c{i}; c{i} = b{i}; }} return b{i}; }}", "\n", ""),
+    "distinct_knr_def": ("", lambda i: f"int k{i}(a{i}, b{i}) int a{i}; char b{i}; {{return a{i};}}", "\n", ""),
+    "distinct_proto_then_def": ("", lambda i: f"int p{i}(int); int p{i}(int a){{return a;}}", "\n", ""),
+    "distinct_brace_init_array": ("", lambda i: f"int a{i}[] = {{{i}, {i + 1}}};", "\n", ""),
+    "distinct_brace_init_struct": ("struct P {int x, y;}; ", lambda i: f"struct P q{i} = {{.x = {i}, .y = 0}};", "\n", ""),
+    "distinct_struct_body_var": ("", lambda i: f"struct S{i} {{int m{i}; char n{i};}} s{i};", "\n", ""),
+    "distinct_union_body": ("", lambda i: f"union U{i} {{int m{i}; float n{i};}};", "\n", ""),
+    "distinct_typedef_struct": ("", lambda i: f"typedef struct {{int m{i};}} T{i};", "\n", ""),
+    "distinct_typedef_then_use": ("", lambda i: f"typedef int I{i}; I{i} f{i}(I{i} a{i}){{ I{i} b{i} = a{i}; return b{i}; }}", "\n", ""),
+    "distinct_enum_distinct_enumerators": ("", lambda i: f"enum E{i} {{A{i}, B{i} = {i}, C{i}}};", "\n", ""),
+    "distinct_anonymous_enum": ("", lambda i: f"enum {{X{i}, Y{i}}};", "\n", ""),
+    "distinct_compound_literal_init": ("", lambda i: f"int *c{i} = (int[]){{{i}, 0}};", "\n", ""),
+    "distinct_locals_in_one_function": ("void f(void){ ", lambda i: f"{{ int v{i} = {i}; }} int w{i};", " ", " }"),
     # -- lists inside one construct ----------------------------------------
     "init_declarators": ("int ", lambda i: f"v{i}", ", ", ";"),
     "enumerators": ("enum E {", lambda i: f"e{i}", ", ", "};"),
